@@ -42,7 +42,7 @@ def TIMEOUT(tier):
     return 900 if tier == "quick" else 5400
 
 
-SCENARIOS = ["S0", "S1", "S2", "S3", "S4", "S5", "S6", "S7"]
+SCENARIOS = ["S0", "S1", "S2", "S3", "S4", "S5", "S6", "S7", "S8"]
 
 
 def gen_cases(tier, seed):
@@ -135,6 +135,11 @@ class Run:
             flaky = app.task(basic.flaky, max_retries=2)
             app.broker.purge()
             self.ids = {"a": flaky(1, 5).invocation_id, "b": flaky(0, 6).invocation_id}
+        elif scenario == "S8":
+            # batch registration path: one parallelize call registers and routes several invocations at once
+            app.broker.purge()
+            group = list(self.task.parallelize([(10,), (11,), (12,)]))
+            self.ids = {"a": group[0].invocation_id, "b": group[1].invocation_id, "c": group[2].invocation_id}
         elif scenario == "S7":
             # running concurrency control with re-routing: two invocations of one TASK-controlled task
             from pynenc.conf.config_task import ConcurrencyControlType
@@ -180,7 +185,7 @@ class Run:
                 return body
             for i in range(self.n):
                 sc.spawn(f"claimer{i}", claimer(i))
-        elif self.scenario in ("S6", "S7"):
+        elif self.scenario in ("S6", "S7", "S8"):
             for i in range(self.n):
                 sc.spawn(f"poller{i}", self.poller(i, k=2, rounds=3))
         elif self.scenario in ("S1", "S2", "S3"):
